@@ -117,7 +117,9 @@ class ConverterHandlers:
     """Converters local to a given class. These will be overriden by inner classes."""
 
     @classmethod
-    def make(cls, handlers: t.Optional[IntoConverterHandlers]) -> Self:
+    def make(cls, handlers: t.Union[IntoConverterHandlers, ConverterHandlers, None]) -> Self:
+        if isinstance(handlers, cls):
+            return handlers
         return cls(globals=cls._process(handlers))
 
     @staticmethod
